@@ -6,6 +6,73 @@ two round trips.
 import CffiVerif.Model.Utf16
 namespace CffiVerif.Utf16
 
+open CffiVerif.Generated.CharExprs
+
+/-! ### what the generated definitions mean
+(`Generated/CharExprs.lean` is rewritten from the C source on every run; these lemmas are where a
+changed test or a changed constant stops the proofs.) -/
+
+@[simp] theorem szAstral_eq (c : Nat) : szAstral c = decide (c > 0xFFFF) := by unfold szAstral; rfl
+@[simp] theorem encAstral_eq (c : Nat) : encAstral c = decide (c > 0xFFFF) := by unfold encAstral; rfl
+@[simp] theorem encOutOfRange_eq (c : Nat) : encOutOfRange c = decide (c > 0x10FFFF) := by unfold encOutOfRange; rfl
+@[simp] theorem encSub_eq (c : Nat) : encSub c = c - 0x10000 := by unfold encSub; rfl
+@[simp] theorem encHigh_eq (o : Nat) : encHigh o = 0xD800 ||| (o >>> 10) := by unfold encHigh; rfl
+@[simp] theorem encLow_eq (o : Nat) : encLow o = 0xDC00 ||| (o &&& 0x3FF) := by unfold encLow; rfl
+/-- The terminator is written iff the units written so far leave room — a count of *units*
+(`result - start`), not of code points. -/
+@[simp] theorem encTerminator_eq (written len resultlen : Nat) :
+    encTerminator written len resultlen = decide (written < resultlen) := by unfold encTerminator; rfl
+@[simp] theorem copyNull_eq (resultlen len : Nat) : copyNull resultlen len = decide (resultlen > len) := by unfold copyNull; rfl
+@[simp] theorem decPairCount_eq (a b : Nat) : decPairCount a b = (isHigh a && isLow b) := by
+  simp [decPairCount, isHigh, isLow, Bool.and_assoc]
+@[simp] theorem decHigh_next (a : Nat) : decHigh a true = isHigh a := by simp [decHigh, isHigh]
+/-- On the last unit the `i < size - 1` guard keeps the loop from reading `w[size]`. -/
+@[simp] theorem decHigh_last (a : Nat) : decHigh a false = false := by simp [decHigh]
+@[simp] theorem decLow_eq (b : Nat) : decLow b = isLow b := by unfold decLow; rfl
+@[simp] theorem decJoin_eq (a b : Nat) :
+    decJoin a b = (((a &&& 0x3FF) <<< 10) ||| (b &&& 0x3FF)) + 0x10000 := by unfold decJoin; rfl
+
+/-- The encoder's step, with the generated tests spelled out. -/
+theorem encode16_cons (c : Nat) (cs : Str) :
+    encode16 (c :: cs) =
+      if c > 0xFFFF then
+        if c > 0x10FFFF then .error .valueError
+        else match encode16 cs with
+          | .ok r => .ok (encHigh (encSub c) :: encLow (encSub c) :: r)
+          | .error e => .error e
+      else match encode16 cs with
+        | .ok r => .ok (c :: r)
+        | .error e => .error e := by
+  rw [encode16]
+  by_cases h1 : c > 0xFFFF
+  · have e1 : encAstral c = true := by simp [h1]
+    by_cases h2 : c > 0x10FFFF
+    · have e2 : encOutOfRange c = true := by simp [h2]
+      simp only [e1, e2, if_true, h1, h2]
+    · have e2 : encOutOfRange c = false := by simp [h2]
+      simp only [e1, e2, if_true, h1, h2, if_false, Bool.false_eq_true]
+      cases encode16 cs <;> rfl
+  · have e1 : encAstral c = false := by simp [h1]
+    simp only [e1, h1, if_false, Bool.false_eq_true]
+    cases encode16 cs <;> rfl
+
+theorem countAstral_cons (c : Nat) (cs : Str) :
+    countAstral (c :: cs) = if c > 0xFFFF then countAstral cs + 1 else countAstral cs := by
+  simp [countAstral]
+
+theorem asChar16_eq (s : Str) (resultlen : Nat) :
+    asChar16 s resultlen = match encode16 s with
+      | .ok u => .ok (if u.length < resultlen then u ++ [0] else u)
+      | .error e => .error e := by
+  unfold asChar16
+  cases encode16 s <;> simp
+
+theorem asChar32_eq (s : Str) (resultlen : Nat) :
+    asChar32 s resultlen =
+      if resultlen < (if resultlen > s.length then s.length + 1 else s.length) then .error .systemError
+      else .ok (if resultlen > s.length then s ++ [0] else s) := by
+  simp [asChar32]
+
 theorem or_D800 (x : Nat) (hx : x < 1024) : 0xD800 ||| x = 0xD800 + x := by
   have := Nat.two_pow_add_eq_or_of_lt (i := 10) (b := x) (by omega) 54
   rw [show (2:Nat)^10 * 54 = 0xD800 from by decide] at this
@@ -48,19 +115,17 @@ theorem encode16_cons_astral (c : Nat) (cs : Str) (h1 : 0xFFFF < c) (h2 : c ≤ 
     encode16 (c :: cs) = (match encode16 cs with
       | .ok r => .ok ((0xD800 + (c - 0x10000) / 1024) :: (0xDC00 + (c - 0x10000) % 1024) :: r)
       | .error e => .error e) := by
-  rw [encode16]
+  rw [encode16_cons]
   have : ¬ c > 0x10FFFF := by omega
-  simp only [show c > 0xFFFF from h1, if_true, this, if_false, hi_eq c h1 h2, lo_eq]
-  cases encode16 cs <;> rfl
+  simp only [show c > 0xFFFF from h1, if_true, this, if_false, encSub_eq, encHigh_eq, encLow_eq, hi_eq c h1 h2, lo_eq]
 
 theorem encode16_cons_bmp (c : Nat) (cs : Str) (h1 : c ≤ 0xFFFF) :
     encode16 (c :: cs) = (match encode16 cs with
       | .ok r => .ok (c :: r)
       | .error e => .error e) := by
-  rw [encode16]
+  rw [encode16_cons]
   have : ¬ c > 0xFFFF := by omega
   simp only [this, if_false]
-  cases encode16 cs <;> rfl
 
 theorem encode16_ok_of_valid (s : Str) (hv : ValidStr s) : ∃ u, encode16 s = .ok u := by
   induction s with
@@ -85,7 +150,7 @@ theorem encode16_length (s : Str) (u : Units) (h : encode16 s = .ok u) : u.lengt
         injection h with h; subst h
         have := ih r hr
         have hn : ¬ c > 0xFFFF := by omega
-        simp only [size16, countAstral, List.length_cons, hn, if_false] at *
+        simp only [size16, countAstral_cons, List.length_cons, hn, if_false] at *
         omega
     · by_cases hv : c ≤ 0x10FFFF
       · rw [encode16_cons_astral c cs (by omega) hv] at h
@@ -96,9 +161,9 @@ theorem encode16_length (s : Str) (u : Units) (h : encode16 s = .ok u) : u.lengt
           injection h with h; subst h
           have := ih r hr
           have hn : c > 0xFFFF := by omega
-          simp only [size16, countAstral, List.length_cons, hn, if_true] at *
+          simp only [size16, countAstral_cons, List.length_cons, hn, if_true] at *
           omega
-      · rw [encode16] at h
+      · rw [encode16_cons] at h
         have h1 : c > 0xFFFF := by omega
         have h2 : c > 0x10FFFF := by omega
         simp [h1, h2] at h
@@ -109,11 +174,11 @@ theorem decodeLoop_cons_cons (a b : Nat) (rest : Units) :
       if isHigh a && isLow b then
         ((((a &&& 0x3FF) <<< 10) ||| (b &&& 0x3FF)) + 0x10000) :: decodeLoop rest
       else a :: decodeLoop (b :: rest) := by
-  rw [decodeLoop]
+  rw [decodeLoop]; simp only [decHigh_next, decLow_eq, decJoin_eq]
 
 theorem countPairs_cons_cons (a b : Nat) (rest : Units) :
     countPairs (a :: b :: rest) = (if isHigh a && isLow b then 1 else 0) + countPairs (b :: rest) := by
-  rw [countPairs]
+  rw [countPairs]; simp only [decPairCount_eq]
 
 /-- A low surrogate does not start a pair. -/
 theorem countPairs_cons_low (b : Nat) (rest : Units) (hb : isLow b = true) :
@@ -155,7 +220,8 @@ theorem decodeLoop_length (w : Units) : (decodeLoop w).length + countPairs w = w
   | case1 => rfl
   | case2 a => rfl
   | case3 a b rest hp ih =>
-    rw [countPairs_cons_cons, hp]
+    have hp' : (isHigh a && isLow b) = true := by simpa using hp
+    rw [countPairs_cons_cons, hp']
     have hb : isLow b = true := by simp at hp; exact hp.2
     rw [countPairs_cons_low b rest hb]
     simp only [List.length_cons, if_true]
@@ -193,7 +259,7 @@ theorem encode16_head (d : Nat) (ds : Str) (r : Units) (h : encode16 (d :: ds) =
         simp only [hr] at h; injection h with h
         refine ⟨_, _, h.symm, ?_⟩
         intro hl; rw [isLow_iff] at hl; omega
-    · rw [encode16] at h
+    · rw [encode16_cons] at h
       have h1 : d > 0xFFFF := by omega
       have h2 : d > 0x10FFFF := by omega
       simp [h1, h2] at h
@@ -242,7 +308,7 @@ theorem decodeLoop_encode16 (s : Str) (u : Units) (hn : noAdjacentLoneSurrogateP
           have hj : (0xD800 + (c - 0x10000) / 1024) % 1024 * 1024 + (0xDC00 + (c - 0x10000) % 1024) % 1024 + 0x10000 = c := by
             omega
           rw [hj]
-      · rw [encode16] at h
+      · rw [encode16_cons] at h
         have h1 : c > 0xFFFF := by omega
         have h2 : c > 0x10FFFF := by omega
         simp [h1, h2] at h
@@ -259,7 +325,7 @@ theorem encode16_decodeLoop (w : Units) (hw : Units16 w) : encode16 (decodeLoop 
     have ha : isHigh a = true := by simp at hp; exact hp.1
     have hb : isLow b = true := by simp at hp; exact hp.2
     rw [isHigh_iff] at ha; rw [isLow_iff] at hb
-    rw [join_eq, encode16_cons_astral _ _ (by omega) (by omega),
+    rw [decJoin_eq, join_eq, encode16_cons_astral _ _ (by omega) (by omega),
       ih (fun x hx => hw x (by simp [hx]))]
     have e1 : 0xD800 + (a % 1024 * 1024 + b % 1024 + 0x10000 - 0x10000) / 1024 = a := by omega
     have e2 : 0xDC00 + (a % 1024 * 1024 + b % 1024 + 0x10000 - 0x10000) % 1024 = b := by omega
